@@ -422,6 +422,80 @@ def check_qmap_roles(prog, rep):
     return n
 
 
+def check_elem_writeback(prog, rep):
+    """`for i, e in enumerate(coll): ... e = f(e)` where `coll` is what the function returns: the
+    new value must be written back (`coll[i] = e`), or the caller receives the old element while
+    the function validated the new one (combine_legs(pipes=...): the auto-conjugated pipe)."""
+    n = 0
+    for rel in (NPC, CH):
+        m = prog.module(rel)
+        for q, f in m.functions.items():
+            rets = set()
+            for r in ast.walk(f):
+                if isinstance(r, ast.Return) and r.value is not None:
+                    rets |= names_in(r.value)
+            for lp in ast.walk(f):
+                if not isinstance(lp, ast.For):
+                    continue
+                e = pmatch('enumerate($c)', lp.iter)
+                if not e or not isinstance(lp.target, ast.Tuple) or len(lp.target.elts) != 2 or \
+                        not all(isinstance(x, ast.Name) for x in lp.target.elts):
+                    continue
+                i_, el = lp.target.elts[0].id, lp.target.elts[1].id
+                c = e['$c']
+                if c not in rets:
+                    continue
+                for st in ast.walk(lp):
+                    if isinstance(st, ast.Assign) and any(isinstance(t, ast.Name) and t.id == el
+                                                          for t in st.targets):
+                        n += 1
+                        slot = '%s[%s]' % (c, i_)
+                        stored = any(unparse(t) == slot for t in st.targets)
+                        blk = parent(st)
+                        sib = [x for x in getattr(blk, 'body', []) + getattr(blk, 'orelse', [])
+                               if isinstance(x, ast.Assign) and x.lineno >= st.lineno and
+                               any(unparse(t) == slot for t in x.targets) and el in names_in(x.value)]
+                        rep.instance('LOOP-elem-writeback', {'function': q, 'rebinding': key_text(st),
+                                                             'written_back': bool(stored or sib)})
+                        if not (stored or sib):
+                            rep.violation('LOOP-elem-writeback', m, q, 'not-written-back:' + el,
+                                          '`%s` replaces the loop element of `%s`, which the '
+                                          'function returns, without storing it back into `%s`: '
+                                          'the caller gets the old element (e.g. the pipe that '
+                                          'was NOT conjugated)' % (key_text(st), c, slot),
+                                          st.lineno)
+    if n < 1:
+        raise AnalysisError('LOOP-elem-writeback: _combine_legs_make_pipes not found')
+
+
+def check_split_axes_sorted(prog, rep):
+    """split_legs: the fast paths and the worker walk `axes` from the back assuming ascending
+    order; every binding of `axes` must therefore be ascending by construction (enumerate /
+    range comprehension, or sorted(...))."""
+    m = prog.module(NPC)
+    f = m.func('Array.split_legs')
+    uses_rev = any(pmatch('reversed(axes)', x) for x in body_nodes(f)) or any(
+        isinstance(c, ast.Call) and call_name(c) == '_split_legs_worker' for c in body_nodes(f))
+    binds = [st for st in stmts_of(f) if isinstance(st, ast.Assign) and
+             unparse(st.targets[0]) == 'axes']
+    rep.instance('SPLIT-axes-sorted', {'bindings': [key_text(b)[:70] for b in binds],
+                                       'order_dependent_uses': uses_rev})
+    if not binds:
+        raise AnalysisError('split_legs: bindings of `axes` not found')
+    for b in binds:
+        v = b.value
+        asc = bool(pmatch('sorted($$x)', v)) or (
+            isinstance(v, ast.ListComp) and isinstance(v.generators[0].iter, ast.Call) and
+            call_name(v.generators[0].iter) in ('enumerate', 'range')) or any(
+                pmatch('axes.sort()', x) for x in body_nodes(f))
+        if uses_rev and not asc:
+            rep.violation('SPLIT-axes-sorted', m, 'Array.split_legs', 'axes-unsorted',
+                          '`%s`: the axes given by the caller are used in the order given, but the '
+                          'splitting walks them from the back assuming ascending order: for '
+                          'axes=[1, 0] positions shift and the wrong legs / blocks are combined' %
+                          key_text(b)[:70], b.lineno)
+
+
 def run(prog, rep, tier):
     rep.rule('DIR-*', 'direction algebra by sign-case enumeration: effect of conj / '
              'flip_charges_qconj / LegPipe.conj / outer_conj on qconj, charges and incoming legs '
@@ -437,6 +511,8 @@ def run(prog, rep, tier):
     check_fusion_rule(prog, rep)
     n = check_qmap_roles(prog, rep)
     check_flag_l(prog, rep, 'C06')
+    check_elem_writeback(prog, rep)
+    check_split_axes_sorted(prog, rep)
     rep.floor('DIR-algebra', 8)
     rep.floor('QMAP-roles', 9)
     rep.floor('FLAG-L-reset', 12)
